@@ -107,7 +107,7 @@ def harc_inner(p, name):
 
 def lemma_block_job(ctx):
     """the closure a block job runs: one arbitrary (off, bytes) against the copy_file_offset contract."""
-    eng = ctx.engine("libxcp", loop_bound=3)
+    eng = ctx.engine("libxcp", loop_bound=3 if ctx.tier == "quick" else 5)
     install_env(ctx, eng)
 
     def s_send(eng, st, callee, args, dty):
@@ -124,6 +124,10 @@ def lemma_block_job(ctx):
     nbytes = eng.fresh_int(st, "u64", "bytes")
     off = eng.fresh_int(st, "u64", "off")
     st.pc += [nbytes.t >= 1, off.t + nbytes.t <= (1 << 63) - 1]   # file offsets are off_t
+    src_len = eng.fresh_int(st, "u64", "src_len")
+    st.ghost["src_len"] = src_len
+    in_file = z3.If(src_len.t > off.t, z3.If(src_len.t - off.t < nbytes.t, src_len.t - off.t, nbytes.t), 0)
+    n_bound = 0
     names = [n for n in ("harc", "bytes", "off", "stat_tx")]
     # field order as declared by the closure's debug info
     order = {}
@@ -152,6 +156,9 @@ def lemma_block_job(ctx):
             if not any(is_errev(e) for e in sends):
                 ctx.fail("block job: no panic unless the status channel is broken", "%s %s" % (p.msg, names_t))
             continue
+        if p.status == "bound":
+            n_bound += 1     # more short counts in one block than the unrolling bound: outside the claim
+            continue
         if p.status != "return":
             ctx.fail("block job: path ends in return", "%s %s" % (p.status, p.msg))
             continue
@@ -177,15 +184,16 @@ def lemma_block_job(ctx):
             continue
         # job finished without any error report: the whole block must have been transferred
         if not errors_sent:
-            okk = ctx.lemma(eng, "C01/C05: a block job that reports no error has copied its whole block (short counts are retried)",
-                            p.pc, done == nbytes.t, key="parblock:short-copy-not-retried", info={"trace": names_t})
+            okk = ctx.lemma(eng, "C01/C05: a block job that reports no error has copied its whole block up to EOF (short counts are retried)",
+                            p.pc, done == in_file, key="parblock:short-copy-not-retried", info={"trace": names_t})
         total = z3.IntVal(0)
         for e in copied_sent:
             total = total + e.args[0].fields[0].t
         ctx.lemma(eng, "C12: the Copied updates of a block job add up to the bytes the kernel reported", p.pc, total == done)
         # C10/C18/C20: the job drops its handle clone exactly once, after the last copy
         ctx.witness(eng, "kernel returns a short count for a block", p.pc, [copies[0].ret.t < nbytes.t]) if not is_errev(copies[0]) else None
-    ctx.bounds = "one arbitrary block (any offset, any size >= 1), copy_file_offset contract: any count 1..=request or an error"
+    ctx.bounds = ("one arbitrary block (any offset, any size >= 1, any file length), copy_file_offset contract: any count 1..=min(request, bytes before EOF), "
+                  "0 at EOF, or an error; up to %d short counts per block (%d deeper paths cut by the unrolling bound)" % (eng.loop_bound, n_bound))
 
 
 def _arc_drop(log):
